@@ -164,6 +164,20 @@ PROPS = {
         "technique": "Lean 4 sequential model of FileSource (FileSourceSeq) + delivery monitor (Lean) + differential correspondence under randomised preprocess delays and thread counts",
         "level_text": "PLACEHOLDER", "level_note": LEVEL_NOTE_COMMON, "explanation": "PLACEHOLDER",
     },
+    "C07": {
+        "suites": [("stream", 100, 1500)], "props": ["C07"], "level": "other", "suite_timeout": 2400,
+        "nontrivial": lambda suite, case, impl: any(l.startswith("impl ev newirr") for l in case["lines"]) and any(l.startswith("impl ev new ") for l in case["lines"]),
+        "rule": "cases = a generated tree (22-37 blocks, forks, skipped numbers, LIB policies) whose canonical chain crosses one 100-block bundle boundary; merged files = the complete bundle below the boundary (real DBinBlockWriter), forked one-block files for every forked block (30% missing in a quarter of the cases); a real ForkableHub (kept 100 mostly, else 0/1/2/5) bootstrapped through one one-block pass up to a moment t0 at which its LIB has reached the end of the files; a real stream.New(...).Run started by number (anywhere from the root to the hub head, negative, at/after the stop block), from a delivered New/Undo/Irreversible cursor (half of them on blocks that end up forked out) or through a target cursor, default/final-only/custom filters, stop block in the files / on the boundary / in the hub window / on a skipped number / none; the remaining blocks reach the hub either inside the handler of delivery #k or when the stream is quiescent (the schedule). distinct = sha1 of header+body; non-trivial = the run delivers blocks from files and from the live hub (a handoff happened)",
+        "technique": "Lean 4 simulation model of JoiningSource+Stream over the Forkable/HubBurst/FileSourceSeq/Resolver models with an explicit schedule of hub pushes + pure-consumer monitor (Lean) + differential correspondence against the real stream/hub/file source",
+        "level_text": "PLACEHOLDER", "level_note": LEVEL_NOTE_COMMON, "explanation": "PLACEHOLDER",
+    },
+    "C13": {
+        "suites": [("stream", 100, 1500)], "props": ["C13"], "level": "other", "suite_timeout": 2400,
+        "nontrivial": lambda suite, case, impl: any(l.startswith("impl send stop") or l.startswith("impl send invalidarg") for l in case["lines"]),
+        "rule": "same cases as C07; non-trivial = the stream ended with stop-block-reached or an invalid-argument error",
+        "technique": "Lean 4 model of Stream option handling (negative start, start/stop check, final-only cursor check, filter and stop handlers as list transformers) + monitors (nothing above the stop block, filters only remove) + differential correspondence",
+        "level_text": "PLACEHOLDER", "level_note": LEVEL_NOTE_COMMON, "explanation": "PLACEHOLDER",
+    },
     "C09": {
         "suites": [("hubburst", 2500, 30000)], "props": ["C09"], "level": "other",
         "projection": proj_forkable, "nontrivial": lambda suite, case, impl: any(l.startswith("impl b newirr") for l in case["lines"]),
